@@ -10,8 +10,10 @@ pub mod c10;
 pub mod c11;
 pub mod c12;
 pub mod c13;
+pub mod c14;
 pub mod c15;
 pub mod c16;
+pub mod c19;
 
 use crate::run::Tier;
 
@@ -28,8 +30,10 @@ pub fn dispatch(id: &str, tier: Tier) -> Option<i32> {
         "C11" => Some(c11::run(tier)),
         "C12" => Some(c12::run(tier)),
         "C13" => Some(c13::run(tier)),
+        "C14" => Some(c14::run(tier)),
         "C15" => Some(c15::run(tier)),
         "C16" => Some(c16::run(tier)),
+        "C19" => Some(c19::run(tier)),
         _ => None,
     }
 }
